@@ -154,7 +154,8 @@ pub fn check_cell(depth: u8, h: u64, part: &mut Part) -> Option<Viol> {
     }
   }
   // 4. edge paths
-  for &nseg in &[1u32, 3, 4] {
+  let nsegs: &[u32] = if h % 7 == 0 { &[1, 3, 4, 17] } else { &[1, 3, 4] };
+  for &nseg in nsegs {
     for cw in [false, true] {
       for k in 0..4u8 {
         let path = match guarded(move || nested::path_along_cell_edge(depth, h, &Cardinal::from_index(k), cw, nseg)) {
@@ -186,7 +187,8 @@ pub fn check_cell(depth: u8, h: u64, part: &mut Part) -> Option<Viol> {
     }
   }
   // 5. grids
-  for &nseg in &[1u16, 4] {
+  let gsegs: &[u16] = if h % 7 == 0 { &[1, 4, 9] } else { &[1, 4] };
+  for &nseg in gsegs {
     let g = match guarded(move || nested::grid(depth, h, nseg)) {
       Ok(v) => v,
       Err(m) => viol!("nested::grid", "panic-in-domain", case, "a grid".into(), m),
